@@ -321,6 +321,12 @@ func ctxContract() []byte {
 // flag ‖ all return data (RETURNDATACOPY of RETURNDATASIZE bytes).
 func forwarder(callOp int, value uint64, next address, variant string) []byte {
 	a := newAsm()
+	if variant == "after-identity" {
+		// first a call that returns 32 bytes (identity precompile), so that this frame's
+		// return-data buffer is non-empty when the next frame starts
+		a.pushU(0x1234).pushU(0).op(opMSTORE)
+		a.pushU(0x20).pushU(0x80).pushU(0x20).pushU(0).pushU(0).pushU(4).op(opGAS, opCALL, opPOP)
+	}
 	a.op(opCALLDATASIZE).pushU(0).pushU(0x100).op(opCALLDATACOPY)
 	a.pushU(0x40).pushU(0x40).op(opCALLDATASIZE).pushU(0x100)
 	if callOp == opCALL || callOp == opCALLCODE {
